@@ -147,7 +147,9 @@ def alphabet(kind, tier):
         calls = [{}, {"a": SI}, {Opt("a"): SI, E: E}, {E: E}, {"a": E}, {E: SI}, {"a": 1},
                  {Opt("a"): E}, [], None, E, "x", {"a": SI, "b": SA}, {1: SI, (1, 2): SA, None: SI},
                  # keys that are format-template text (every DeclarationError quotes repr(receiver))
-                 {"{id}": SI, Opt("{}"): SA, "a}b{0}": SI}]
+                 {"{id}": SI, Opt("{}"): SA, "a}b{0}": SI},
+                 # `...: ...` first / in the middle of the key table
+                 {E: E, "a": SI}, {"a": SI, E: E, Opt("b"): SA}]
         return [(c, (v,)) for v in calls]
     if kind == "any":
         calls = [(SI,), (SI, SS), (Sch(("any", (INT,))), Sch(NONE)), (1,), (SI, None), (E,), (None,),
